@@ -61,6 +61,8 @@ D = datetime.date
 DOMAINS = {
     'int': [1, 2, None, 'MISSING'],
     'str': ['a', 'B', 'b', None, 'MISSING'],
+    # text whose full case folding differs from its lower-case form
+    'strx': ['Stra\xdfe', 'STRASSE', 'strasse', '\u03c2', '\u03a3', 'MISSING'],
     'float': [0.5, 1.5, None, 'MISSING'],
     'bool': [False, True, None, 'MISSING'],
     'date': [D(2020, 1, 1), D(2021, 6, 1), None, 'MISSING'],
@@ -94,6 +96,8 @@ SPECS = {
             'k/locale', 'k/strcoll/desc', 'k/locale_nocase',
             'k/strcoll_nocase/desc', 'k/byfn', 'k/byfn/desc',
             'EXPR:k/byfn/desc'],
+    'strx': ['k', 'k/nocase', 'k/nocase/desc', 'k/locale_nocase',
+             'EXPR:k/nocase'],
     'float': ['k', 'k/cmp/desc'],
     'bool': ['k', 'k/cmp', 'k/cmp/desc'],
     'date': ['k', 'k/cmp', 'k/cmp/desc'],
